@@ -770,6 +770,13 @@ class FastqSim(Base):
             self.fail("consistency:own-text-unparsable", after=after, got=exc_name(re), msg=str(re)[:200], lines=f.lines[:8])
         if re != live:
             self.fail("consistency:text-and-view-differ", after=after, view=[(k, s[:20]) for k, s, q in live[:4]], reparsed=[(k, s[:20]) for k, s, q in re[:4]])
+        if not isinstance(self.off, int):
+            # the named formats stand for documented numeric offsets: the written characters must decode to the
+            # same scores when the text is read with the number (a consistently wrong table entry would cancel
+            # out between writing and reading under the same name)
+            st, re2 = call(lambda: self.view(self.F.read(io.StringIO(text_of(f)), OFFSETS[self.off], self.cfg["cpl"])))
+            if st == "exc" or re2 != live:
+                self.fail("consistency:named-offset-differs-from-documented-number", after=after, name=self.off, number=OFFSETS[self.off])
 
     def note_scores(self, seq, scores):
         o = self.off if isinstance(self.off, int) else OFFSETS[self.off]
